@@ -91,7 +91,7 @@ def _walk(G, x, y, m):
 
 
 SPEC = {
-    'sdist': _sdist, 'walk': _walk, 'Qrawg': _Qrawg, 'QrawB': (lambda B, c, n: float((_mat(B)[:n, :n] * (np.asarray(c)[:n, None] == np.asarray(c)[None, :n])).sum())), 'umul': (lambda a, b: a * b), 'udiv': (lambda a, b: a / b),
+    'sdist': _sdist, 'walk': _walk, 'Qrawg': _Qrawg, 'msq': (lambda W, c, x, k, n: float(sum(_modsum(_mat(W), c, x, m, n) ** 2 for m in range(int(k))))), 'QrawB': (lambda B, c, n: float((_mat(B)[:n, :n] * (np.asarray(c)[:n, None] == np.asarray(c)[None, :n])).sum())), 'umul': (lambda a, b: a * b), 'udiv': (lambda a, b: a / b),
     'rcnt': lambda M, x, n: int(np.count_nonzero(_mat(M)[x, :n])), 'ccnt': lambda M, y, n: int(np.count_nonzero(_mat(M)[:n, y])),
     'rsum': lambda M, x, n: float(_mat(M)[x, :n].sum()), 'csum': lambda M, y, n: float(_mat(M)[:n, y].sum()),
     'rpos': lambda M, x, n: int((_mat(M)[x, :n] > 0).sum()), 'rneg': lambda M, x, n: int((_mat(M)[x, :n] < 0).sum()),
@@ -270,6 +270,8 @@ class Eval:
             # distinct labels / the first position carrying label t + 1
             r = self.e.result
             lab = np.asarray(r[0] if isinstance(r, tuple) else r)
+            if 'ci' in self.e.locs and getattr(self.e, 'unique_from_local_ci', False):
+                lab = np.asarray(self.e.locs['ci'])        # contracts whose last np.unique produced the LOCAL label vector ci
             if f == 'unique_count':
                 return int(len(np.unique(lab)))
             t = int(self.ev(n.args[0]))
@@ -330,6 +332,7 @@ def check_call(contract, func, args, kwargs=None, extra_locals=None):
     env.unchanged = {k: (isinstance(args[k], np.ndarray) and np.array_equal(args[k], snap[k], equal_nan=True) and args[k].dtype == snap[k].dtype) if isinstance(snap[k], np.ndarray) else True
                      for k in args}
     env.argrefs = args
+    env.unique_from_local_ci = bool(getattr(contract, 'unique_from_local_ci', False))
     out = []
     clauses = contract.ensures if raised is None else contract.ensures_raises
     for name, src in clauses:
